@@ -114,6 +114,8 @@ pub struct Tick {
 pub enum Obs {
     Market { tag: u32, id: u32, inst: usize },
     Disc,
+    /// the account stream of the execution link reconnected (never expected: tool-level event)
+    AcctDisc,
     Account { kind: &'static str, cid: String, detail: Value },
 }
 
@@ -121,6 +123,8 @@ pub enum Obs {
 #[derive(Debug, Clone, Default)]
 pub struct RecGlobal {
     pub log: Vec<Obs>,
+    /// an account event was processed since the last account-stream disconnect
+    pub acct_healthy: bool,
 }
 
 /// `InstrumentDataState`: what this instrument's data state was handed.
@@ -179,6 +183,7 @@ impl Processor<&AccountEvent> for RecGlobal {
                        "price": d(t.price), "qty": d(t.quantity), "fees": d(t.fees.fees)}),
             ),
         };
+        self.acct_healthy = true;
         self.log.push(Obs::Account { kind, cid, detail });
     }
 }
@@ -259,6 +264,7 @@ pub struct Sink {
     pub digest: Value,
     pub anomalies: Vec<String>,
     pub calls: usize,
+    pub account_reconnects: usize,
 }
 
 #[derive(Debug, Clone)]
@@ -379,6 +385,10 @@ impl ActStrategy {
                     l["a"] = json!("Disc");
                     l["tag"] = json!(s.tags.first().copied().unwrap_or(0));
                     last = None;
+                }
+                Obs::AcctDisc => {
+                    s.account_reconnects += 1;
+                    continue;
                 }
                 Obs::Account { kind, cid, detail } => {
                     s.na += 1;
@@ -507,8 +517,17 @@ impl<Clock, ExecutionTxs, Risk> OnDisconnectStrategy<Clock, State, ExecutionTxs,
     type OnDisconnect = ();
     /// A `Reconnecting` item of the dataset reaches the engine here: record it in the run's own
     /// engine state, like the data states record market events.
-    fn on_disconnect(engine: &mut Engine<Clock, State, ExecutionTxs, Self, Risk>, _: ExchangeId) {
-        engine.state.global.log.push(Obs::Disc);
+    fn on_disconnect(engine: &mut Engine<Clock, State, ExecutionTxs, Self, Risk>, exchange: ExchangeId) {
+        use barter::engine::state::connectivity::Health;
+        // (the hook does not say which link dropped: the account link did iff it was healthy
+        //  after the last account event and is reconnecting now)
+        let account_down = engine.state.connectivity.connectivity(&exchange).account == Health::Reconnecting;
+        if engine.state.global.acct_healthy && account_down {
+            engine.state.global.acct_healthy = false;
+            engine.state.global.log.push(Obs::AcctDisc);
+        } else {
+            engine.state.global.log.push(Obs::Disc);
+        }
     }
 }
 
@@ -551,16 +570,18 @@ impl BacktestMarketData for GatedMarketData {
         let events = Arc::clone(&self.events);
         let gates = Arc::clone(&self.gates);
         let timeouts = Arc::clone(&self.gate_timeouts);
-        // state: (next 0-based index, receiver)
-        Ok(futures::stream::unfold((0usize, rx), move |(idx, mut rx)| {
+        // state: (next 0-based index, market items emitted, receiver)
+        Ok(futures::stream::unfold((0usize, 0usize, rx), move |(idx, items, mut rx)| {
             let events = Arc::clone(&events);
             let gates = Arc::clone(&gates);
             let timeouts = Arc::clone(&timeouts);
             async move {
-                // items are 1-based ids: the item about to be emitted is id idx+1; idx items are out
+                // dataset ids are 1-based: `idx` items are out, the one about to be emitted is idx+1
                 if let Some(rx) = rx.as_mut() {
                     let emitted = idx as u32;
-                    let need_snap = emitted >= 1;
+                    // (the run learns which stream feeds it from the first market item: only then
+                    //  can it report the snapshot)
+                    let need_snap = items >= 1;
                     let need_settled = gates.iter().rev().find(|g| **g <= emitted).copied().unwrap_or(0);
                     let wait = rx.wait_for(|p| (!need_snap || p.snap) && p.settled >= need_settled);
                     match tokio::time::timeout(GATE_TIMEOUT, wait).await {
@@ -574,10 +595,12 @@ impl BacktestMarketData for GatedMarketData {
                     return None;
                 }
                 let mut ev = events[idx].clone();
+                let mut items = items;
                 if let MarketStreamEvent::Item(e) = &mut ev {
                     e.kind.tag = tag;
+                    items += 1;
                 }
-                Some((ev, (idx + 1, rx)))
+                Some((ev, (idx + 1, items, rx)))
             }
         }))
     }
@@ -625,8 +648,8 @@ fn dataset(n: usize, data_seed: u64, recs: &[u32]) -> Vec<Item> {
                 return MarketStreamEvent::Reconnecting(EXCHANGE);
             }
             MarketStreamEvent::Item(MarketEvent {
-                time_exchange: time(60 * id as i64),
-                time_received: time(60 * id as i64),
+                time_exchange: time(3600 * id as i64),
+                time_received: time(3600 * id as i64),
                 exchange: EXCHANGE,
                 instrument: InstrumentIndex(inst),
                 kind: Tick { tag: 0, id, price: dec(price[inst]) },
@@ -687,7 +710,7 @@ fn plan(seed: u64, tier: &str) -> Vec<Value> {
             (2000, vec![(2, 2), (8, 4)]),
         ]
     } else {
-        vec![(50, vec![(2, 1), (2, 4), (8, 2)]), (200, vec![(2, 2), (8, 1), (8, 4)]), (500, vec![(8, 2)])]
+        vec![(50, vec![(2, 1), (2, 4), (8, 2)]), (200, vec![(2, 2), (8, 1), (8, 4)]), (300, vec![(8, 2)])]
     };
     for (dsi, (n, grid)) in gated.iter().enumerate() {
         let n = *n;
@@ -735,7 +758,7 @@ fn plan(seed: u64, tier: &str) -> Vec<Value> {
             (2000, vec![(1, 1), (2, 16), (8, 2), (8, 4)]),
         ]
     } else {
-        vec![(50, vec![(1, 1), (2, 4), (8, 2), (8, 1)]), (500, vec![(1, 2), (2, 1), (8, 4)]), (2000, vec![(1, 4), (2, 2)])]
+        vec![(50, vec![(1, 1), (2, 4), (8, 2), (8, 1)]), (500, vec![(1, 2), (2, 1), (8, 4)]), (1000, vec![(2, 2)]), (2000, vec![(1, 4)])]
     };
     for (dsi, (n, grid)) in inmem.iter().enumerate() {
         let n = *n;
@@ -795,7 +818,7 @@ fn run_scenario(scn: &Value, trace: &mut Out, results: &mut Out, totals: &mut Va
     let events = Arc::new(dataset(n, data_seed, &recs));
     let instruments = instruments();
     let engine_state: State = EngineState::builder(&instruments, RecGlobal::default(), RecInst::default)
-        .time_engine_start(time(60))
+        .time_engine_start(time(3600))
         .trading_state(TradingState::Enabled)
         .build();
 
@@ -884,7 +907,14 @@ fn run_scenario(scn: &Value, trace: &mut Out, results: &mut Out, totals: &mut Va
         reset["kind"] = json!(format!("{name}/{r}"));
         trace.line(&reset);
         for l in &sk.lines {
-            trace.line(l);
+            if l["a"] == "Disc" {
+                // (a Reconnecting item carries no tag: it belongs to the stream the run is fed by)
+                let mut l = l.clone();
+                l["tag"] = json!(tag);
+                trace.line(&l);
+            } else {
+                trace.line(l);
+            }
         }
         // the summary of this run (summaries are returned in argument order; the id says which)
         let summary = summaries.get(r);
@@ -918,7 +948,7 @@ fn run_scenario(scn: &Value, trace: &mut Out, results: &mut Out, totals: &mut Va
             "variant": o.variant, "acts": o.acts_json, "status": status, "tags": sk.tags, "calls": sk.calls,
             "consumed": sk.nc, "account_events": sk.na, "orders_fired": n_orders, "order_responses": sk.n_resp,
             "balances_seen": sk.n_bal, "trades_seen": sk.n_trade, "snapshots_seen": sk.n_snap,
-            "order_response_timeouts": timeouts,
+            "order_response_timeouts": timeouts, "account_reconnects": sk.account_reconnects,
             "fills": sk.fills, "facts": sk.facts, "digest": sk.digest, "summary": sum_json, "summary_id_ok": id_ok, "sumok": sumok,
             "order_states": sk.order_states, "anomalies": sk.anomalies,
             "extra_streams": extra_streams.load(Ordering::SeqCst), "wall_s": wall,
